@@ -104,10 +104,15 @@ def kinds():
     K['Nilsimsa'] = (lambda: nilsimsa.Nilsimsa(), [
         ('call D1', True, lambda e: e.A(D1)), ('call D3', True, lambda e: e.A(D3)), ('update unfinished', False, lambda e: e.A.update(D2) and None),
         ('call empty', True, lambda e: e.A(b'')), ('sibling D1', True, lambda e: e.B(D1)), ('other target', True, lambda e: nilsimsa.Nilsimsa(17)(D1))])
+    def refused2(f, g):
+        """two refused calls in a row (the first one's exception is swallowed)"""
+        try: f()
+        except Exception: pass
+        return g()
     def cipherkind(name, factory, bl):
         B1, B2, B3 = BLK(bl), BLK(bl)[::-1], bytes(bl)
         K[name] = (factory, [
-            ('enc B1', True, lambda e: e.A.enc(B1)), ('dec B2', True, lambda e: e.A.dec(B2)), ('enc wrong size', False, lambda e: e.A.enc(B1 + b'x')),
+            ('enc B1', True, lambda e: e.A.enc(B1)), ('dec B2', True, lambda e: e.A.dec(B2)), ('enc / dec wrong size', False, lambda e: refused2(lambda: e.A.dec(B1 + b'x'), lambda: e.A.enc(B1 + b'x'))),
             ('enc B3', True, lambda e: e.A.enc(B3)), ('sibling enc B1', True, lambda e: e.B.enc(B1)), ('dec(enc B1)', True, lambda e: e.A.dec(e.A.enc(B1)))])
     cipherkind('AES', lambda: aes.AES(BLK(16)), 16); cipherkind('AES-256', lambda: aes.AES(BLK(16) + bytes(16)), 16)       # related keys: same leading bytes, zero-extended
     cipherkind('DES', lambda: des.DES(BLK(8)), 8); cipherkind('TDEA', lambda: des.TDEA(BLK(24)), 8)
@@ -159,7 +164,7 @@ def kinds():
         'MD6': lambda e: md6o(256, b'kez', 64, 6)(M2), 'MD6-seq': lambda e: md6o(256, b'k', 0, 6)(M2),
         'Blake': lambda e: blake.Blake(256)(M2, 99), 'Blake512': lambda e: blake.Blake(512)(M2, 99), 'Blake2b': lambda e: blake.Blake2(512)(M2, salt=BLK(16), outlen=20), 'Blake2s': lambda e: blake.Blake2(256)(M2, pers=BLK(8), outlen=7),
         'Skein': lambda e: skein.Skein(256, 256, version=2)(M2), 'Skein-mac-long': lambda e: skein.Skein(512, 1024, key=b'secreT', nonce=b'n')(M2), 'Skein-tree': lambda e: skein.Skein(256, 256, Yl=1, Yf=1, Ym=3, schema=b'sha3')(M3),
-        'HMAC': lambda e: hmac.HMAC(sha.SHA2(256), b'key-two')(M2), 'TLSH': lambda e: tlsh.TLSH(128)(D2, True), 'Nilsimsa': lambda e: nilsimsa.Nilsimsa().update(D2),
+        'HMAC': lambda e: hmac.HMAC(sha.SHA2(256), b'key-two')(M2), 'TLSH': lambda e: (tlsh.TLSH(128)(D2, True), e.A.from_hash(tlsh.TLSH(128, 5, 3)(D1))),        # ... and a digest of ANOTHER configuration offered to the long-lived object (refused or not, its own configuration stays) 'Nilsimsa': lambda e: nilsimsa.Nilsimsa().update(D2),
         'AES': lambda e: aes.AES(BLK(16)[::-1]).enc(BLK(16)), 'AES-256': lambda e: aes.AES(K32).enc(BLK(16)), 'DES': lambda e: des.DES(K32[:8]).dec(BLK(8)),
         'TDEA': lambda e: des.TDEA(K32[:24]).enc(BLK(8)), 'Serpent': lambda e: serpent.Serpent(K32[:20]).enc(BLK(16)), 'Threefish': lambda e: threefish.Threefish(BLK(32), K32[:16]).enc(BLK(32)),
         'ECB': lambda e: mode.ECB(aes.AES(K32[:16])).enc(M1), 'CBC': lambda e: mode.CBC(aes.AES(BLK(16)), K32[:16]).enc(M2), 'ECB-nopad': lambda e: mode.ECB(des.DES(K32[:8]), nopadding).enc(M2[:16]),
